@@ -1,4 +1,4 @@
-(* go-sha256: 240bd48afd30f2ef02f836d4113131f8e3e3dc95a89c7b77e2b287ee12b90399 *)
+(* go-sha256: 504577b7bbcb911e1a8384c9c6a9bea95fda16e446334209bf3dd3b7d54621cb *)
 (* deps: strategy_SplitStrategy strategy_Strategy *)
 Definition strategy_SplitStrategy_Compute (s : strategy_SplitStrategy) (snapshots : (expr I asset_Snapshot)) : (expr I Z) :=
   let buyActions := strategy_Strategy_Compute (strategy_SplitStrategy_BuyStrategy s) snapshots in
